@@ -432,7 +432,7 @@ pub fn run(ctx: &Ctx) -> Report {
         worst_cpu.fetch_max(m.worst_cpu_ns, Ordering::Relaxed);
     };
     // wl 1: every truncation length of (a sample of) the vendored files
-    let nfiles = if ctx.quick() { 80 } else { blobs.len() as u64 };
+    let nfiles = if ctx.quick() { 240 } else { blobs.len() as u64 };
     run_enum(ctx, &mut rep, 1, nfiles, |l, rng, i| {
         let k = if ctx.quick() { (i as usize * 11) % blobs.len() } else { i as usize };
         let good = &blobs[k];
@@ -451,7 +451,7 @@ pub fn run(ctx: &Ctx) -> Report {
         fold(&m);
     });
     // wl 2: structured mutations
-    run_cases(ctx, &mut rep, 2, ctx.n(6000, 400_000), |l, rng, i| {
+    run_cases(ctx, &mut rep, 2, ctx.n(40_000, 1_000_000), |l, rng, i| {
         let good = &blobs[rng.below(blobs.len() as u64) as usize];
         let mut m = Meter { worst_ratio_x1000: 0, worst_cpu_ns: 0, calls: 0 };
         for _ in 0..ctx.inner(8) {
@@ -471,7 +471,7 @@ pub fn run(ctx: &Ctx) -> Report {
         fold(&m);
     });
     // wl 3: TZ strings and their edits
-    run_cases(ctx, &mut rep, 3, ctx.n(3000, 200_000), |l, rng, _| {
+    run_cases(ctx, &mut rep, 3, ctx.n(20_000, 600_000), |l, rng, _| {
         let mut m = Meter { worst_ratio_x1000: 0, worst_cpu_ns: 0, calls: 0 };
         for _ in 0..ctx.inner(8) {
             let mut s = match rand_expressible(rng) {
@@ -506,7 +506,7 @@ pub fn run(ctx: &Ctx) -> Report {
         fold(&m);
     });
     // wl 4: constructors at the extremes
-    run_cases(ctx, &mut rep, 4, ctx.n(300, 20_000), |l, rng, i| {
+    run_cases(ctx, &mut rep, 4, ctx.n(1500, 40_000), |l, rng, i| {
         let mut m = Meter { worst_ratio_x1000: 0, worst_cpu_ns: 0, calls: 0 };
         constructors(l, &mut m, rng);
         l.op_n("monitored calls", m.calls);
@@ -515,7 +515,7 @@ pub fn run(ctx: &Ctx) -> Report {
     });
     // wl 5: generated valid zones of every shape: all queries
     let cfg = ZoneCfg::lookup();
-    run_cases(ctx, &mut rep, 5, ctx.n(3000, 200_000), |l, rng, _| {
+    run_cases(ctx, &mut rep, 5, ctx.n(20_000, 600_000), |l, rng, _| {
         let mut c = cfg.clone();
         if ctx.scale < 1.0 {
             c.max_transitions = 30;
